@@ -359,7 +359,9 @@ def validate(unit=None, digits=('u64', 'u32', 'u16', 'u8'), modes=('dbg',)):
     bad = 0
     for m in modes:
         x = RUN.load_expansion(m)
-        for d in digits:
+        from . import props as P
+        pair_tags = [t for u in sorted(P.PAIR_UNITS) for t in P.unit_digits(u, digits)]
+        for d in (P.unit_digits(unit, digits) if unit in P.PAIR_UNITS else list(digits) + (pair_tags if unit is None else [])):
             g = Generator(x, ov, d, m)
             g.build_items()
             for p in g.problems:
